@@ -224,10 +224,13 @@ pub fn run_crash_case(case: &SqlReplay, opts: &CrashOpts) -> CrashRun {
     // states[i] = committed state after i events were acknowledged
     let mut states: Vec<State> = vec![sim.model.committed_state()];
     let mut live_violation = None;
+    // page-cache eviction counter after each event (reach probe): tells steals from the write-through of page deallocation
+    let mut evictions_after: Vec<u64> = vec![];
     for (i, ev) in case.events.iter().enumerate() {
         tap::mark(&format!("s {i}"));
         let r = sim.step(i, ev);
         tap::mark(&format!("a {i}"));
+        evictions_after.push(sim.eng.cache_stats().2);
         states.push(sim.model.committed_state());
         if sim.halted {
             break;
@@ -269,6 +272,10 @@ pub fn run_crash_case(case: &SqlReplay, opts: &CrashOpts) -> CrashRun {
     // D22b window: inside a checkpoint, from its first db-file write up to the log truncation
     let skip_ckpt_window = case.guards.iter().any(|g| g == "crash_inside_checkpoint_page_writes");
     let mut in_window = false;
+    // S1: once an evicted dirty page has been written back outside a checkpoint ("steal"), crash
+    // points are not judged until the next checkpoint has truncated the log
+    let skip_after_steal = case.guards.iter().any(|g| g == "crash_after_stolen_page");
+    let mut stolen = false;
     let mut inflight: Option<usize> = None;
     // crash points are judged only while the history itself agreed with the model
     let limit = if out.counters.contains_key("history_failed_before_crash_enumeration") { n_events_run.saturating_sub(1) } else { usize::MAX };
@@ -291,6 +298,23 @@ pub fn run_crash_case(case: &SqlReplay, opts: &CrashOpts) -> CrashRun {
             continue;
         }
         img.apply(e);
+        if skip_after_steal {
+            let ckpt_or_drop = inflight.map(|j| matches!(&case.events[j], Event::Flush | Event::Vacuum | Event::Reopen(_) | Event::Auto(crate::stmt::Stmt::DropTable { .. }))).unwrap_or(false);
+            let evicted_here = inflight.map(|j| evictions_after.get(j).copied().unwrap_or(0) > if j == 0 { 0 } else { evictions_after.get(j - 1).copied().unwrap_or(0) }).unwrap_or(false);
+            if e.file != "axmos.log" && e.kind == tap::Kind::Write && !ckpt_or_drop && evicted_here && k > created_at {
+                if !stolen {
+                    bump(&mut out.counters, "eviction_write_backs_before_commit", 1);
+                }
+                stolen = true;
+            }
+            if e.file == "axmos.log" && e.kind == tap::Kind::SetLen {
+                stolen = false;
+            }
+            if stolen {
+                bump(&mut out.counters, "crash_points_after_stolen_page_not_judged", 1);
+                continue;
+            }
+        }
         if skip_ckpt_window {
             let ckpt = inflight.map(|j| matches!(case.events[j], Event::Flush | Event::Vacuum | Event::Reopen(_))).unwrap_or(false);
             if ckpt && e.file != "axmos.log" && e.kind == tap::Kind::Write {
